@@ -97,6 +97,8 @@ def main(argv=None):
     if a.replay:
         with open(a.replay) as f:
             rec = json.load(f)
+        if rec.get('config') == 'python -O' and not sys.flags.optimize:
+            return subprocess.call([sys.executable, '-O', '-W', 'ignore', '-m', 'vmon.cli', prop, '--replay', a.replay])
         ctx = replay_case(mod, prop, rec['case'], seed=rec.get('seed', 0), tier=rec.get('tier', 'quick'))
         if ctx.harness_errors:
             print('INCONCLUSIVE property=%s harness error during replay\n%s' % (prop, ctx.harness_errors[0]))
@@ -115,18 +117,26 @@ def main(argv=None):
     nsh = a.shards or getattr(mod, 'SHARDS', {}).get(a.tier, 4 if a.tier == 'quick' else 16)
     nsh = max(1, min(nsh, os.cpu_count() or 1))
     dumps, dead = [], []
+    configs = {'default': 1}
     if nsh == 1:
         dumps.append(run_shard(mod, Ctx(prop, a.tier, seed, 0, 1)))
     else:
         sdir = os.path.join(HOME, '.shards')
         os.makedirs(sdir, exist_ok=True)
         procs = []
-        for i in range(nsh):
-            out = os.path.join(sdir, '%s-%s-%d-%d.json' % (prop, a.tier, os.getpid(), i))
-            p = subprocess.Popen([sys.executable, '-W', 'ignore', '-m', 'vmon.cli', prop, '--tier', a.tier,
-                                  '--shard', '%d/%d' % (i, nsh), '--out', out],
-                                 stdout=subprocess.PIPE, stderr=subprocess.STDOUT)
-            procs.append((i, p, out))
+        # configurations: every shard in the default interpreter configuration; the same shards again under `python -O`
+        # (assert statements stripped) -- all of them in the quick tier, a quarter of them in the thorough tier
+        nopt = nsh if a.tier == 'quick' else max(1, nsh // 4)
+        if os.environ.get('VERIF_NO_OPT'):
+            nopt = 0
+        for cfg, idxs in (('default', range(nsh)), ('python -O', range(nopt))):
+            for i in idxs:
+                out = os.path.join(sdir, '%s-%s-%d-%d%s.json' % (prop, a.tier, os.getpid(), i, 'O' if cfg != 'default' else ''))
+                p = subprocess.Popen([sys.executable] + (['-O'] if cfg != 'default' else []) + ['-W', 'ignore', '-m', 'vmon.cli', prop, '--tier', a.tier,
+                                      '--shard', '%d/%d' % (i, nsh), '--out', out],
+                                     stdout=subprocess.PIPE, stderr=subprocess.STDOUT)
+                procs.append(('%d%s' % (i, ' (python -O)' if cfg != 'default' else ''), p, out))
+        configs = {'default': nsh, 'python -O': nopt}
         watchdog = getattr(mod, 'WATCHDOG', {}).get(a.tier, 900 if a.tier == 'quick' else 5400)
         for i, p, out in procs:
             try:
@@ -134,10 +144,10 @@ def main(argv=None):
             except subprocess.TimeoutExpired:
                 p.kill()
                 p.communicate()
-                dead.append('shard %d: watchdog after %ds' % (i, watchdog))
+                dead.append('shard %s: watchdog after %ds' % (i, watchdog))
                 continue
             if p.returncode != 0 or not os.path.exists(out):
-                dead.append('shard %d: exit %s: %s' % (i, p.returncode, (so or b'').decode(errors='replace')[-1500:]))
+                dead.append('shard %s: exit %s: %s' % (i, p.returncode, (so or b'').decode(errors='replace')[-1500:]))
                 continue
             with open(out) as f:
                 dd = json.load(f)
@@ -158,9 +168,22 @@ def main(argv=None):
         w = e.get('witness')
         if not w:
             continue
-        c = replay_case(mod, prop, w)
-        fails = [v for v in c.viol.values()]
-        if c.harness_errors:
+        if e.get('config') == 'python -O':
+            # the witness is a case under `python -O`: replay it in such an interpreter
+            wf = os.path.join(HOME, '.shards', 'witness-%s-%d.json' % (e['id'], os.getpid()))
+            os.makedirs(os.path.dirname(wf), exist_ok=True)
+            with open(wf, 'w') as f:
+                json.dump(dict(property=prop, case=w, config='python -O'), f)
+            rc = subprocess.run([sys.executable, '-O', '-W', 'ignore', '-m', 'vmon.cli', prop, '--replay', wf], capture_output=True, text=True)
+            os.unlink(wf)
+            fails = [dict(sig=dict(property=prop, kind='witness_fails', config='python -O'), detail=rc.stdout[-1200:], case=w)] if rc.returncode == 1 else []
+            if rc.returncode not in (0, 1):
+                dead.append('witness replay of %s under python -O: exit %s %s' % (e['id'], rc.returncode, rc.stdout[-300:]))
+            c = None
+        else:
+            c = replay_case(mod, prop, w)
+            fails = [v for v in c.viol.values()]
+        if c is not None and c.harness_errors:
             dead.append('witness replay of %s: %s' % (e['id'], c.harness_errors[0]))
         if e.get('status') == 'open':
             if fails:
@@ -217,7 +240,7 @@ def main(argv=None):
         name = '%s-%016x.json' % (prop, core.hkey(json.dumps(v['sig'], sort_keys=True, default=str), v.get('regression_of')))
         path = os.path.join(rdir, name)
         rec = dict(property=prop, sig=v['sig'], detail=v['detail'], case=v['case'], seed=v.get('seed', seed),
-                   tier=v.get('tier', a.tier), count=v.get('count', 1),
+                   tier=v.get('tier', a.tier), count=v.get('count', 1), config=v.get('config', 'default'),
                    replay_cmd='./check %s --replay %s' % (prop, path))
         if 'regression_of' in v:
             rec['regression_of'] = v['regression_of']
@@ -242,6 +265,7 @@ def main(argv=None):
         unlisted_violation_signatures=[v['sig'] for v in unlisted][:50],
         inconclusive_reasons=inconclusive,
         shards=nsh,
+        interpreter_configurations=configs,
         hook_calls=res['extra'].get('hook_calls', {}),
     )
     for k, v in res['extra'].items():
